@@ -3,10 +3,13 @@ package c15
 
 import (
 	"bytes"
+	"encoding/binary"
 	"encoding/hex"
 	"fmt"
+	"golang.org/x/crypto/sha3"
 	"os"
 	"sort"
+	"strings"
 	"sync/atomic"
 	"testing"
 	"time"
@@ -378,7 +381,14 @@ func fieldMutate(rt *rapid.T, in []byte, label string) ([]byte, string) {
 	}
 	switch {
 	case n.Branch != nil:
-		switch gen.Uniform(rt, 0, 3, label+"bf") {
+		switch gen.Uniform(rt, 0, 5, label+"bf") {
+		case 4:
+			// a branch without a single occupied slot (all sixteen empty)
+			n.Branch.Children = make([][]byte, 16)
+			what = "branch-all-slots-empty"
+		case 5:
+			n.Branch.Children = nil
+			what = "branch-no-child-list"
 		case 0:
 			n.Branch.Hash = resize(n.Branch.Hash)
 			what = "branch-hash-length"
@@ -513,6 +523,9 @@ func TestMutatedEncodings(t *testing.T) {
 				acc, past = tryDeserializeTrie(rt, in)
 			default:
 				blk := uint64(gen.Uniform(rt, 0, 40, "blk"))
+				if gen.Chance(rt, 30, "blkedge") {
+					blk = gen.Pick(rt, []uint64{0, 0, 1, 1<<63 - 1, 1 << 63, 1<<64 - 1}, "blkval")
+				}
 				acc, past = tryVerify(rt, blk, in)
 			}
 			differs := !bytes.Equal(in, src)
@@ -656,4 +669,68 @@ func FuzzVerifyBlockProof(f *testing.F) {
 		f.Add(uint16(i), b)
 	}
 	f.Fuzz(func(t *testing.T, blk uint16, in []byte) { tryVerify(t, uint64(blk), in) })
+}
+
+// A well-formed but very deep export: a chain of short nodes, each the value of the one above (accepted by the
+// decoder as it stands). Decoding must stay prompt; it takes about a tenth of a second here, the limit is 100 times that.
+func TestDeepChainExport(t *testing.T) {
+	ev.Guard(t, "TestDeepChainExport", func() {
+		depth := ev.N(60000, 100000)
+		// declared hashes of the inner elements are only compared with the references to them; the root's hash is
+		// recomputed by the decoder, so it is the real one
+		hashOf := func(i int) []byte {
+			h := make([]byte, 32)
+			binary.BigEndian.PutUint64(h[24:], uint64(i))
+			h[0] = 0x5a
+			return h
+		}
+		ref := func(i int) []byte { return binary.BigEndian.AppendUint64(append([]byte{}, hashOf(i)...), 1) }
+		key := []byte{1}
+		pairs := make([]*wmpt.PersistTriePair, 0, depth+1)
+		for i := 0; i < depth; i++ {
+			h := hashOf(i)
+			if i == 0 {
+				d := sha3.Sum256(append(append([]byte{}, key...), hashOf(1)...))
+				h = d[:]
+			}
+			el, err := cbor.Marshal(&wmpt.PersistNodeBase{Short: &wmpt.PersistNodeShort{Key: key, Hash: h, Value: ref(i + 1)}})
+			if err != nil {
+				t.Fatalf("HARNESS: %v", err)
+			}
+			pairs = append(pairs, &wmpt.PersistTriePair{Value: el})
+		}
+		val, err := cbor.Marshal(&wmpt.PersistNodeBase{Value: &wmpt.PersistNodeValue{Value: []byte("v"), Hash: hashOf(depth), Weight: 1}})
+		if err != nil {
+			t.Fatalf("HARNESS: %v", err)
+		}
+		pairs = append(pairs, &wmpt.PersistTriePair{Value: val})
+		in, err := cbor.Marshal(&wmpt.PersistTrie{Pairs: pairs})
+		if err != nil {
+			t.Fatalf("HARNESS: %v", err)
+		}
+		done := make(chan error, 1)
+		st := time.Now()
+		go func() {
+			defer func() {
+				if r := recover(); r != nil {
+					done <- fmt.Errorf("panic: %v", r)
+				}
+			}()
+			tr := wmpt.New(nil, nil)
+			err := tr.Deserialize(in)
+			if err == nil {
+				_ = tr.Root()
+			}
+			done <- err
+		}()
+		select {
+		case err := <-done:
+			if err != nil && strings.HasPrefix(err.Error(), "panic") {
+				t.Fatalf("Deserialize of a %d-element chain export (%d bytes): %v", depth+1, len(in), err)
+			}
+			ev.Case(fmt.Sprintf("deep-chain/%d", depth), true, "deep-chain-export", fmt.Sprintf("accepted:%v", err == nil))
+		case <-time.After(25 * time.Second):
+			t.Fatalf("Deserialize of a %d-element chain export (%d bytes) has not returned after %v (it takes a fraction of a second on this code)", depth+1, len(in), time.Since(st).Round(time.Second))
+		}
+	})
 }
